@@ -1405,8 +1405,15 @@ fn rebuild_value(
             .iter()
             .find(|(k, _t)| *k == VALUE)
             .map_or(false, |(_k, t)| t.starts_with('#'));
+        // A comment line in front of the first line of the value (the value
+        // starts on the line after the field name) has to stay on a line of
+        // its own: on the field's line it would become part of the value
+        let starts_with_comment = tokens
+            .iter()
+            .find(|(k, _t)| *k != NEWLINE && *k != WHITESPACE)
+            .map_or(false, |(k, _t)| *k == COMMENT);
         // Insert a leading newline if the value is multi-line and immediate_empty_line is set
-        if immediate_empty_line && has_newline && !starts_with_hash {
+        if (immediate_empty_line && has_newline && !starts_with_hash) || starts_with_comment {
             builder.token(NEWLINE.into(), "\n");
             last_was_newline = true;
         } else {
